@@ -36,6 +36,13 @@ Theorem C07_fields : forall a ds p,
 Proof. exact fields_image. Qed.
 Print Assumptions C07_fields.
 
+(* the [lines] above are the CRLF-separated lines of the header block with
+   folded lines joined and empty lines dropped (Spec: unfold_lines) *)
+Theorem C07_header_lines : forall header lines,
+  get_header_lines header = inr lines -> lines = unfold_lines (split header CRLF).
+Proof. exact get_header_lines_unfold. Qed.
+Print Assumptions C07_header_lines.
+
 (* ... in particular under the CGI name of any field name at all *)
 Theorem C07_field_name : forall name, is_header_key (cgi_key name) = true.
 Proof. exact cgi_key_header_form. Qed.
